@@ -1239,6 +1239,34 @@ def boundaries(rng):
             j = rng.randrange(len(c["sections"]))
             c["sections"][j] = [["dir", "union", None]] + [["field", ["s", ["uint", 8, "sat", False]], "v%d" % q] for q in range(nvar)] + [["dir", "sealed", None]]
             add(c, "union-variants:%d" % nvar)
+    # directive placement and duplication, systematically, in a message and in both sections of a service
+    F = ["field", ["s", ["uint", 8, "sat", False]], "a"]
+    G2 = ["field", ["s", ["uint", 8, "sat", False]], "b"]
+    K = ["const", ["s", ["uint", 8, "sat", False]], "C", ["rat", 1, 1]]
+    SE, EX, UN, DE = ["dir", "sealed", None], ["dir", "extent", ["rat", 64, 1]], ["dir", "union", None], ["dir", "deprecated", None]
+    table = [
+        ("none", []), ("none+field", [F]), ("sealed", [SE]), ("extent", [EX]), ("field,sealed", [F, SE]), ("sealed,field", [SE, F]),
+        ("field,extent", [F, EX]), ("extent,field", [EX, F]), ("extent,const", [EX, K]), ("extent,pad", [EX, ["pad", 8]]),
+        ("field,extent,field", [F, EX, G2]), ("extent,assert", [EX, ["dir", "assert", ["bool", True]]]), ("extent,print", [EX, ["dir", "print", None]]),
+        ("sealed,sealed", [SE, SE]), ("sealed,extent", [SE, EX]), ("extent,sealed", [EX, SE]), ("extent,extent", [EX, EX]),
+        ("sealed,field,sealed", [SE, F, SE]), ("field,sealed,extent", [F, SE, EX]),
+        ("union,2", [UN, F, G2, SE]), ("2,union", [F, G2, UN, SE]), ("1,union,1", [F, UN, G2, SE]), ("union,union", [UN, UN, F, G2, SE]),
+        ("union,2,union", [UN, F, G2, UN, SE]), ("sealed,union,2", [SE, UN, F, G2]), ("const,union", [K, UN, F, G2, SE]),
+        ("union,const,2", [UN, K, F, G2, SE]), ("union,1,const", [UN, F, K, SE]), ("union,pad", [UN, F, G2, ["pad", 8], SE]),
+        ("pad,union", [["pad", 8], UN, F, G2, SE]), ("union,extent,field", [UN, F, G2, EX, ["field", ["s", ["bool"]], "c"]]),
+        ("deprecated", [DE, SE]), ("sealed,deprecated", [SE, DE]), ("field,deprecated", [F, DE, SE]), ("const,deprecated", [K, DE, SE]),
+        ("pad,deprecated", [["pad", 1], DE, SE]), ("deprecated,deprecated", [DE, DE, SE]), ("deprecated,field,deprecated", [DE, F, DE, SE]),
+        ("union,deprecated", [UN, DE, F, G2, SE]), ("deprecated,union", [DE, UN, F, G2, SE]), ("assert,deprecated", [["dir", "assert", ["bool", True]], DE, SE]),
+    ]
+    for tag, sec in table:
+        for where in ("message", "request", "response"):
+            for other_deprecated in ((False, True) if where == "response" else (False,)):
+                c = minimal(service=(where != "message"))
+                c["ending"] = rng.choice(["nl", "none", "comment"])
+                c["sections"][1 if where == "response" else 0] = copy.deepcopy(sec)
+                if other_deprecated:
+                    c["sections"][0].insert(0, ["dir", "deprecated", None])
+                add(c, "directives:" + where)
     # names: every reserved word and pattern, and the near misses, as attribute name and as type name
     for n in RESERVED_WORDS + RESERVED_PATTERNED + NEAR_MISSES + BAD_SYNTAX + BAD_TYPE_NAMES:
         for spelled in sorted({n, n.upper(), rand_case(rng, n)}):
